@@ -1,57 +1,54 @@
-(* C06 for ATSP -- check_solution_validity (sorted(actions) == arange(len(actions))) against the problem definition. *)
+(* C06 for ATSP -- check_solution_validity (len(actions) == number of nodes and sorted(actions) == arange(len(actions)))
+   against the problem definition.  The length test was added by the fix 5d5f57a (known_findings.json: fixed
+   "atsp/default: checker-accepts-tour-of-wrong-length"); soundness is now stated WITHOUT any hypothesis on the length
+   of the action list. *)
 From Coq Require Import ZArith List Bool.
 From RL4CO Require Import Base.Num Base.EnvSig Spec.Tours Env.TourCore Env.ATSP Env.ATSPProofs.
 Import ListNotations.
 Open Scope Z_scope.
 
-(* every tour (each city exactly once) is accepted *)
+(* every tour (each node exactly once) is accepted *)
 Theorem C06_atsp_checker_complete :
   forall (i : atsp_inst) (acts : list nat),
-    (forall j, (j < atsp_n i)%nat -> occ j acts = 1%nat) -> (forall a, In a acts -> (a < atsp_n i)%nat) ->
-    atsp_checker acts = true.
+    atsp_wf i -> (forall j, (j < atsp_n i)%nat -> occ j acts = 1%nat) -> (forall a, In a acts -> (a < atsp_n i)%nat) ->
+    atsp_checker i acts = true.
 Proof. exact atsp_checker_complete_unfolded. Qed.
 Print Assumptions C06_atsp_checker_complete.
 
-(* accepted action lists OF THE INSTANCE'S LENGTH are tours *)
+(* EVERY accepted action list, of whatever length, is a tour of the instance: each node 0..n-1 exactly once *)
 Theorem C06_atsp_checker_sound :
   forall (i : atsp_inst) (acts : list nat),
-    length acts = atsp_n i -> atsp_checker acts = true ->
+    atsp_wf i -> atsp_checker i acts = true ->
     (forall j, (j < atsp_n i)%nat -> occ j acts = 1%nat) /\ (forall a, In a acts -> (a < atsp_n i)%nat).
 Proof. exact atsp_checker_sound. Qed.
 Print Assumptions C06_atsp_checker_sound.
 
-(* what acceptance means for an action list of ANY length L: a permutation of 0..L-1 *)
-Theorem C06_atsp_checker_sound_any_length :
-  forall (acts : list nat), atsp_checker acts = true ->
-    (forall j, (j < length acts)%nat -> occ j acts = 1%nat) /\ (forall a, In a acts -> (a < length acts)%nat).
-Proof. exact atsp_checker_sound_general. Qed.
-Print Assumptions C06_atsp_checker_sound_any_length.
+Theorem C06_atsp_checker_rejects_wrong_length :
+  forall (i : atsp_inst) (acts : list nat), atsp_wf i -> length acts <> atsp_n i -> atsp_checker i acts = false.
+Proof. exact atsp_checker_rejects_wrong_length. Qed.
+Print Assumptions C06_atsp_checker_rejects_wrong_length.
 
 Theorem C06_atsp_checker_rejects_missing :
   forall (i : atsp_inst) (acts : list nat) (j : nat),
-    length acts = atsp_n i -> (j < atsp_n i)%nat -> ~ In j acts -> atsp_checker acts = false.
+    atsp_wf i -> (j < atsp_n i)%nat -> ~ In j acts -> atsp_checker i acts = false.
 Proof. exact atsp_checker_rejects_missing. Qed.
 Print Assumptions C06_atsp_checker_rejects_missing.
 
 Theorem C06_atsp_checker_rejects_duplicate :
-  forall (acts : list nat) (j : nat), (2 <= occ j acts)%nat -> atsp_checker acts = false.
+  forall (i : atsp_inst) (acts : list nat) (j : nat), atsp_wf i -> (2 <= occ j acts)%nat -> atsp_checker i acts = false.
 Proof. exact atsp_checker_rejects_duplicate. Qed.
 Print Assumptions C06_atsp_checker_rejects_duplicate.
 
 Theorem C06_atsp_checker_rejects_out_of_range :
   forall (i : atsp_inst) (acts : list nat) (a : nat),
-    length acts = atsp_n i -> In a acts -> (atsp_n i <= a)%nat -> atsp_checker acts = false.
+    atsp_wf i -> In a acts -> (atsp_n i <= a)%nat -> atsp_checker i acts = false.
 Proof. exact atsp_checker_rejects_out_of_range. Qed.
 Print Assumptions C06_atsp_checker_rejects_out_of_range.
 
-(* REFUTED without the length hypothesis: the checker never looks at the number of cities, so a "tour" that omits
-   the highest-numbered city is accepted (3 cities, actions [1; 0]) *)
-Theorem C06_atsp_checker_truncated_refuted :
-  exists (i : atsp_inst) (acts : list nat),
-    atsp_wfb i = true /\ atsp_checker acts = true /\ ~ atsp_feasible i acts /\ ~ In 2%nat acts /\ (2 < atsp_n i)%nat.
-Proof. exact atsp_checker_truncated_refuted. Qed.
-Print Assumptions C06_atsp_checker_truncated_refuted.
-
+(* non-vacuity, including the witness of the repaired defect: 3 nodes, actions [1; 0] (a permutation of 0..len-1 that
+   never visits node 2) was accepted before the fix and is rejected now *)
 Example C06_atsp_nonvacuous :
-  atsp_checker [2; 0; 1]%nat = true /\ atsp_checker [2; 0; 2]%nat = false /\ atsp_checker [3; 0; 1]%nat = false.
+  let i := {| agen_n := 3; acost := [[0; 3; 4]; [7; 0; 5]; [1; 2; 0]] |} in
+  atsp_checker i [2; 0; 1]%nat = true /\ atsp_checker i [2; 0; 2]%nat = false /\ atsp_checker i [3; 0; 1]%nat = false /\
+  atsp_checker i [1; 0]%nat = false.
 Proof. vm_compute. auto. Qed.
